@@ -98,6 +98,7 @@ class _Normalizer:
             self._each_function(m, self._augment_function)
             self._each_function(m, self._desugar_function)
             self._each_function(m, self._fold_function)
+            self._each_function(m, self._order_comparisons)
 
     def _each_function(self, m, fn):
         def visit(node, cls, outer: Set[str]):
@@ -238,6 +239,21 @@ class _Normalizer:
                         ast.copy_location(aug, st)
                         ast.fix_missing_locations(aug)
                         body[i] = aug
+
+    # ------------------------------------------------------------------ 4. one operand order for == / !=
+    def _order_comparisons(self, fnode, cls, local):
+        """``3 == marker`` -> ``marker == 3``; two non-constant operands without calls are put in text order.  (Operands with
+        calls keep their order: evaluation order matters to the event trails.)"""
+        for n in ast.walk(fnode):
+            if isinstance(n, ast.Compare) and len(n.ops) == 1 and isinstance(n.ops[0], (ast.Eq, ast.NotEq)):
+                l, r = n.left, n.comparators[0]
+                if any(isinstance(x, (ast.Call, ast.Yield, ast.Await, ast.NamedExpr)) for x in ast.walk(l)) or \
+                        any(isinstance(x, (ast.Call, ast.Yield, ast.Await, ast.NamedExpr)) for x in ast.walk(r)):
+                    continue
+                lc, rc = isinstance(l, ast.Constant), isinstance(r, ast.Constant)
+                swap = (lc and not rc) or (not lc and not rc and ast.unparse(l) > ast.unparse(r))
+                if swap:
+                    n.left, n.comparators = r, [l]
 
     # ------------------------------------------------------------------ 2. conditional expressions
     def _desugar_function(self, fnode, cls, local):
